@@ -72,6 +72,9 @@ type Spec struct {
 	ExtraAnn  map[string]string
 	ExtraVols []string // names of non-claim volumes in the pod template
 	SelExpr   bool     // selector written as matchExpressions (app In (web)) instead of matchLabels
+	// SelBoth: matchLabels app=web AND matchExpressions track NotIn (canary); a NoMatch pod then carries app=web and
+	// track=canary (it satisfies the labels and is excluded by the expression)
+	SelBoth bool
 }
 
 func (sp Spec) String() string {
@@ -149,6 +152,9 @@ func (sp Spec) Build() *asv1.StatefulSet {
 			RevisionHistoryLimit: &lim,
 		},
 	}
+	if sp.SelBoth {
+		set.Spec.Selector = &metav1.LabelSelector{MatchLabels: map[string]string{"app": "web"}, MatchExpressions: []metav1.LabelSelectorRequirement{{Key: "track", Operator: metav1.LabelSelectorOpNotIn, Values: []string{"canary"}}}}
+	}
 	if sp.SelExpr {
 		set.Spec.Selector = &metav1.LabelSelector{MatchExpressions: []metav1.LabelSelectorRequirement{{Key: "app", Operator: metav1.LabelSelectorOpIn, Values: []string{"web", "web2"}}}}
 	}
@@ -203,8 +209,11 @@ type Cell struct {
 	Rev     int         // index into the scenario's revision list (-1: label names no revision, -2: no label)
 	Owner   string      // "" = this set; "none" = orphan; "otheruid"; "otherkind"; "noncontroller"
 	NoMatch bool        // labels do not match the selector
-	NoIdent bool        // the pod-name label is missing (identity must be repaired by an update)
-	OldSvc  bool        // hostname/subdomain stem from an earlier incarnation with another governing service
+	// Nested: the pod is named <set>-<ord>-0, i.e. it is ordinal 0 of ANOTHER set called <set>-<ord> (sets whose names
+	// are prefixes of each other); it matches the selector and has no owner. It is not a pod of this set.
+	Nested  bool
+	NoIdent bool // the pod-name label is missing (identity must be repaired by an update)
+	OldSvc  bool // hostname/subdomain stem from an earlier incarnation with another governing service
 }
 
 func (c Cell) String() string {
@@ -230,6 +239,9 @@ func (c Cell) String() string {
 	}
 	if c.NoMatch {
 		s += "/nomatch"
+	}
+	if c.Nested {
+		s += "/named-like-a-pod-of-the-set-" + "<set>-<ord>"
 	}
 	if c.NoIdent {
 		s += "/noident"
@@ -275,6 +287,9 @@ func PodName(set string, ord int) string { return fmt.Sprintf("%s-%d", set, ord)
 // ord from template k, then dresses it according to the cell.
 func BuildPod(set *asv1.StatefulSet, ord int, c Cell, revName string, tmpl int, extraVols []string) *v1.Pod {
 	name := PodName(set.Name, ord)
+	if c.Nested {
+		name += "-0"
+	}
 	t := PodTemplate(tmpl, extraVols)
 	p := &v1.Pod{
 		TypeMeta: metav1.TypeMeta{Kind: "Pod", APIVersion: "v1"},
@@ -291,6 +306,9 @@ func BuildPod(set *asv1.StatefulSet, ord int, c Cell, revName string, tmpl int, 
 	}
 	if c.NoMatch {
 		p.Labels["app"] = "other"
+		if sel := set.Spec.Selector; sel != nil && len(sel.MatchLabels) > 0 && len(sel.MatchExpressions) > 0 {
+			p.Labels["app"], p.Labels["track"] = "web", "canary"
+		}
 	}
 	if !c.NoIdent {
 		p.Labels["statefulset.kubernetes.io/pod-name"] = name
